@@ -1,4 +1,4 @@
-// vhx-c18 is the private development binary of the C18 builder (removed when done).
+// vhx-c07 is the private development binary of checks C07 and C15.
 package main
 
 import (
@@ -8,7 +8,8 @@ import (
 
 	"verif/harness/internal/vf"
 
-	_ "verif/harness/internal/c18"
+	_ "verif/harness/internal/c07"
+	_ "verif/harness/internal/c15"
 )
 
 func main() {
